@@ -220,7 +220,9 @@ func Run(sc Scenario) Outcome {
 		var pev []xport.Event
 		switch sc.Prior {
 		case "success":
-			pev = []xport.Event{{Kind: "data", N: len(full)}}
+			// (the I/O error is a backstop: where an open finding makes the client wait for more bytes than the reply has, the
+			// earlier call ends with it instead of the read timeout)
+			pev = []xport.Event{{Kind: "data", N: len(full)}, {Kind: "ioerr", N: 0}}
 		case "stall":
 		case "partial-stall":
 			pev = []xport.Event{{Kind: "data", N: len(full) / 2}}
@@ -243,6 +245,11 @@ func Run(sc Scenario) Outcome {
 			return out
 		}
 		script.Reset(append([]byte(nil), sc.Stream...), append([]xport.Event(nil), sc.Events...), sc.WriteErr)
+		// observations are about the judged call only
+		if rec != nil {
+			rec.Calls = nil
+		}
+		out.ParserCalls = nil
 	}
 	if sc.CancelBefore {
 		cancel()
